@@ -261,16 +261,27 @@ impl KrpcSocket {
 
     fn is_expected_response(&mut self, message: &Message, from: &SocketAddrV4) -> bool {
         // Positive or an error response or to an inflight request.
-        match self.inflight_requests.remove(message.transaction_id) {
-            Some(request) => {
-                if compare_socket_addr(&request.to, from) {
+        // Compare the address before consuming the inflight request, otherwise anyone
+        // guessing the (sequential) transaction id cancels the genuine response.
+        match self
+            .inflight_requests
+            .to_address(message.transaction_id)
+            .map(|to| compare_socket_addr(&to, from))
+        {
+            Some(true) => {
+                if self
+                    .inflight_requests
+                    .remove(message.transaction_id)
+                    .is_some()
+                {
                     return true;
-                } else {
-                    trace!(
-                        context = "socket_validation",
-                        message = "Response from wrong address"
-                    );
                 }
+            }
+            Some(false) => {
+                trace!(
+                    context = "socket_validation",
+                    message = "Response from wrong address"
+                );
             }
             None => {
                 trace!(
@@ -425,6 +436,15 @@ impl InflightRequests {
         });
 
         tid
+    }
+
+    /// Returns the address the request with this transaction id was sent to, if it is
+    /// still known (expired or not).
+    fn to_address(&self, key: u32) -> Option<SocketAddrV4> {
+        self.find_by_tid(key)
+            .ok()
+            .and_then(|index| self.requests.get(index))
+            .map(|request| request.to)
     }
 
     fn remove(&mut self, key: u32) -> Option<InflightRequest> {
